@@ -290,6 +290,13 @@ func (e fixEvaluator) BothRings(p rlwe.Parameters, levelP int, x ring.Poly) {
 	}
 }
 
+// RANGEIDX control: the receiver's degree drives the loop over the operand's components
+func (e fixEvaluator) Halves(op0, opOut *rlwe.Ciphertext) {
+	for i := range opOut.Value {
+		e.r.MulScalar(op0.Value[i], 2, opOut.Value[i])
+	}
+}
+
 // DEGLOOP control: the last component is never negated
 func (e fixEvaluator) NegHigh(op0, opOut *rlwe.Ciphertext) {
 	for i := 1; i < op0.Degree(); i++ {
